@@ -1781,9 +1781,25 @@ def h_serialize(begin, entry):
         t = vtag(p.val)
         ok = isinstance(t, tuple) and len(t) >= 2 and t[0] == 'u' and t[1].endswith('::end')
         ctx.req('FLOW', ok, nm + ':done', 'the result must be that of the end() call of the serializer state', p)
-        sl = [x for x in p.events if x[0] == 'slice' and x[1] == p.mid]
-        ok = bool(sl) and z.entails_eq(sl[0][2], 0) and z.entails_eq(sl[0][3], ms.len0)
-        ctx.req('ROOTSLICE', ok, nm + ':done', 'the entries emitted must be those of the live prefix [0, len)', p)
+        # which stored elements reached the serializer: one contiguous run of slots equal to the live prefix
+        # (whatever drives the loop: a slice iterator, an index loop, ...), each exactly once
+        st = p.st
+        g0, g1 = st.ghost.get(('span0', p.mid)), st.ghost.get(('span1', p.mid))
+        bad = ('spanbad', p.mid) in st.ghost
+        if z.entails_eq(ms.len0, 0):
+            ok = g1 is None and not bad
+        else:
+            ok = g0 is not None and g1 is not None and not bad and z.entails_eq(g0[0], 0) and z.entails_eq(g1[0], ms.len0)
+        seen = 'none' if g0 is None or g1 is None else '[%s,%s)%s' % (g0[0], g1[0], ' (not one contiguous run)' if bad else '')
+        ctx.req('ROOTSLICE', ok, nm + ':done', 'the entries emitted must be those of the live prefix [0, len), each once '
+                '(slots whose element reached the serializer: %s)' % seen, p)
+        ln = st.ghost.get(('spanlen', p.mid))
+        if ok and g1 is not None:
+            for sub in ((0,), (1,)) if entry == 'serialize_entry' else ((0,),):
+                n = st.ghost.get(('fmtn', p.mid, sub))
+                ctx.req('ONCE', n is not None and ln is not None and z.entails_eq(n[0], ln[0]), nm + ':done',
+                        'the %s of every stored element must be handed to the serializer exactly once (%s times for %s elements)'
+                        % ('key' if sub == (0,) else 'value', n[0] if n else 0, ln[0] if ln else 0), p)
         # no serializer error may be swallowed on the way to end()
         errs = [x for x in p.events if x[0] == 'variant' and x[2] == 1 and isinstance(x[1], tuple) and x[1][:1] == ('u',)
                 and 'serde::ser' in str(x[1][1])]
@@ -2823,7 +2839,7 @@ def val_eq_z(z, a, b, d=0):
     """structural equality of two abstract values, position terms compared in the zone"""
     if a is b or a == b:
         return True
-    if d > 12:
+    if d > 48:
         return False
     if isinstance(a, Term) or isinstance(b, Term):
         try:
@@ -2841,9 +2857,28 @@ def h_fmt_via_clone(ctx, p):
     nm = ctx.body.name
     ctx.classes['rendered-clone'] += 1
     over = [e[1] for e in p.events if e[0] == 'entries-over']
-    ok = len(over) == 1 and over[0] is True
-    ctx.req('LISTING', ok, nm, 'the entries rendered must be those a faithful copy of the iterator yields: the value handed '
-            'to entries() must equal the receiver (equal: %s)' % (over,), p)
+    nexts = [e for e in p.events if e[0] == 'own-next']
+    if not over and nexts:
+        # the loop form: `for item in self.clone() { list.entry(&item) }` -- the copy stepped through must be a
+        # faithful one, stepped to its end, and nothing may be rendered behind the end (what each step renders is
+        # judged per iteration, below)
+        ys = [i for i, e in enumerate(p.events) if e[0] == 'own-yield']
+        ended = bool(ys) and p.events[ys[-1]][2] is None and not any(e[0] == 'fmtarg' for e in p.events[ys[-1]:])
+        cut = any(e[0] == 'errprop' for e in p.events)
+        firsts = [n for n in p.st.notes if n[0] == 'own-first']
+        faithful = len(firsts) == 1 and firsts[0][2] is True and all(e[1] == firsts[0][1] for e in nexts)
+        ok = faithful and (ended or cut)
+        ctx.req('LISTING', ok, nm, 'the entries rendered must be those a faithful copy of the iterator yields: the loop '
+                'must step ONE copy that equals the receiver (faithful: %s) through its own next() to the end (ended: %s)'
+                % (faithful, ended), p)
+        gy, gf = p.st.ghost.get(('ownyield',)), p.st.ghost.get(('ownfmt',))
+        ny, nf = (gy[0] if gy else 0), (gf[0] if gf else 0)
+        ctx.req('LISTING', cut or (p.z.entails_eq(ny, nf) if not (isinstance(ny, int) and isinstance(nf, int)) else ny == nf),
+                nm, 'as many items must be rendered as the stepped copy yielded (yielded %s, rendered %s)' % (ny, nf), p)
+    else:
+        ok = len(over) == 1 and over[0] is True
+        ctx.req('LISTING', ok, nm, 'the entries rendered must be those a faithful copy of the iterator yields: the value handed '
+                'to entries() must equal the receiver (equal: %s)' % (over,), p)
     v1 = final_self(p)
     shared = bool(p.args0) and p.args0[0][0] == 'ref' and not p.args0[0][1]
     # (through `&self` the borrow checker already rules a change out)
@@ -2858,6 +2893,24 @@ def h_algebra_clone(ctx, p):
     ctx.req('OUT', ok, 'clone', 'a cloned lazy set iterator must equal its original: same operands, same cursors '
             '(copy %s, original %s)' % (str(p.val)[:200], str(p.self0)[:200]), p)
     ctx.req('OUT', val_eq_z(p.z, final_self(p), p.self0), 'clone', 'cloning must not advance or change the original', p)
+
+
+def fmt_clone_iteration(props):
+    """Debug of a lazy iterator written as a loop over a copy of itself: a round that steps the copy renders exactly
+    the item that step yielded, once; a round renders nothing else"""
+    def hook(E, body, key, st, seg, depth=0):
+        ys = [e for e in seg if e[0] == 'own-yield']
+        fm = [e for e in seg if e[0] == 'fmtarg']
+        if not ys and not fm:
+            return
+        E.iter_classes['rendered'] += 1
+        it = Iteration(E, st, seg)
+        some = [e for e in ys if e[2] is not None]
+        ok = len(ys) == 1 and len(some) == 1 and len(fm) == 1 and tag_eq(st.zone, fm[0][1], some[0][2])
+        it_req(E, props, 'LISTING', ok, body.name + ':entry',
+               'one round of the rendering loop must hand exactly the item its step of the copy yielded to the formatter, '
+               'once (yielded: %s, rendered: %s)' % ([e[2] for e in ys], [e[1] for e in fm]), it)
+    return hook
 
 
 # get_disjoint: every answer written into the result array is the value of a slot whose key matched that request
@@ -3573,7 +3626,11 @@ for _k, (_how, _ord) in FMT_ROOTS.items():
     ITER_HOOKS[_k] = ({'C19'}, fmt_iteration(_how, _ord), {'rendered'})
     CLASSES[_k] = {'rendered-all'}
     ADV_TRACK.add(_k)
+SER_ROOTS = {(MAP, 'Serialize', 'serialize'), (SET, 'Serialize', 'serialize')}
+FMT_CLONE_ROOTS = set()
 for _path in (DIFF, DIFFREF, INTER, UNION, SYMDIFF):
+    FMT_CLONE_ROOTS.add((_path, 'Debug', 'fmt'))
+    ITER_HOOKS[(_path, 'Debug', 'fmt')] = ({'C19'}, fmt_clone_iteration, set())
     HANDLERS[(_path, 'Debug', 'fmt')] = ({'C19'}, h_fmt_via_clone)
     CLASSES[(_path, 'Debug', 'fmt')] = {'rendered-clone'}
     CLASSES[(_path, 'Clone', 'clone')] = {'made'}
